@@ -233,14 +233,14 @@ fn observe(script: &[u64], subsearch_only: bool, job: impl FnOnce() -> Result<Se
         Err(_) => obs_status("Panic", trace),
     }
 }
-/// the same in a helper thread; no answer within WATCHDOG_MS => status "Hang"
-fn observe_watchdog(script: Vec<u64>, job: impl FnOnce() -> Result<SearchAlgorithmResult, SearchError> + std::panic::UnwindSafe + Send + 'static) -> Obs {
+/// the same in a helper thread; no answer within `ms` milliseconds => status "Hang"
+fn observe_watchdog(script: Vec<u64>, ms: u64, job: impl FnOnce() -> Result<SearchAlgorithmResult, SearchError> + std::panic::UnwindSafe + Send + 'static) -> Obs {
     let (tx, rx) = std::sync::mpsc::channel();
     std::thread::spawn(move || {
         let o = observe(&script, true, job);
         let _ = tx.send(o);
     });
-    match rx.recv_timeout(Duration::from_millis(WATCHDOG_MS)) {
+    match rx.recv_timeout(Duration::from_millis(ms)) {
         Ok(o) => o,
         Err(_) => obs_status("Hang", vec![]),
     }
@@ -278,14 +278,21 @@ fn ksp_algorithm(k: &Ksp, underlying: &Alg) -> SearchAlgorithm {
         Ksp::Yens { k } => SearchAlgorithm::Yens { k: *k, underlying: u, similarity: None, termination: None },
     }
 }
-fn run_ksp(w: &World, q: &Query, ksp: &Ksp, e: &Entry) -> Obs {
+/// Yen's driver is known not to return on some inputs (C13/C12): its UNLIMITED run gets a short watchdog (a false
+/// alarm on a loaded machine only skips the case); a limited run gets a long one -- by the prefix property it cannot
+/// outlast the unlimited run, so a "Hang" there is a finding, never a scheduling accident.  Single-via runs inline.
+fn run_ksp(w: &World, q: &Query, ksp: &Ksp, e: &Entry, is_unlimited: bool) -> Obs {
     let (w2, q2, k2, t2) = (w.clone(), q.clone(), ksp.clone(), e.t.clone());
-    observe_watchdog(e.script.clone(), move || {
+    let job = move || {
         let mut si = build_instance(&w2);
         si.termination_model = Arc::new(to_tm(&t2));
         let alg = ksp_algorithm(&k2, &q2.alg);
         alg.run_vertex_oriented(VertexId(q2.source), q2.target.map(VertexId), &query_json(&q2), &Direction::Forward, &si)
-    })
+    };
+    match ksp {
+        Ksp::SingleVia { .. } => observe(&e.script, true, job),
+        Ksp::Yens { .. } => observe_watchdog(e.script.clone(), if is_unlimited { WATCHDOG_MS } else { 20 * WATCHDOG_MS }, job),
+    }
 }
 
 // ------------------------------------------------------------------------------------------------ sweeps
@@ -548,7 +555,7 @@ fn stream_limits(a: &Args) {
 // --------------------------------------------------------------------------------------------- stream ksp
 
 fn add_ksp_case(st: &mut Stream, family: &str, w: &World, q: &Query, ksp: &Ksp, entries: Option<Vec<Entry>>, rng: &mut Rng) -> bool {
-    let unl = run_ksp(w, q, ksp, &unlimited());
+    let unl = run_ksp(w, q, ksp, &unlimited(), true);
     if unl.status == "Hang" || unl.status == "Panic" {
         // the unlimited driver itself does not return on this input (Yen's algorithm, known finding of C13/C12)
         st.count(&format!("skipped_unlimited_{}", unl.status));
@@ -556,7 +563,7 @@ fn add_ksp_case(st: &mut Stream, family: &str, w: &World, q: &Query, ksp: &Ksp, 
     }
     let id = st.next_id();
     let entries = entries.unwrap_or_else(|| gen_sweep(rng, max_seg_len(&unl.trace), max_size(&unl.trace), 10));
-    let es: Vec<(Entry, Obs)> = entries.iter().map(|e| (e.clone(), run_ksp(w, q, ksp, e))).collect();
+    let es: Vec<(Entry, Obs)> = entries.iter().map(|e| (e.clone(), run_ksp(w, q, ksp, e, false))).collect();
     let obs_terms = format!("u {}", coq_list(&es, |(e, o)| format!("({}, {})", coq_entry(e), coq_obs_rel(&unl, o))));
     let m = match ksp {
         Ksp::SingleVia { .. } => format!(
